@@ -43,6 +43,8 @@ pub struct B<'a> {
     pub iter_callees: Vec<(Graph, Type, Type)>,
     pub allow_custom: bool,
     pub allow_truncate: bool,
+    /// Sort / public ApplyPermutation inside compositions (costly to compile)
+    pub allow_heavy: bool,
     pub max_elems: u64,
     /// called after every add-node API call with (accepted, operation name)
     pub on_result: Option<Box<dyn FnMut(bool, &str)>>,
@@ -86,6 +88,7 @@ impl<'a> B<'a> {
             iter_callees: vec![],
             allow_custom: true,
             allow_truncate: false,
+            allow_heavy: false,
             max_elems: 4096,
             on_result: None,
         }
@@ -781,9 +784,65 @@ impl<'a> B<'a> {
                     self.p_arith()
                 }
             }
-            38 => self.p_call(),
+            38 => {
+                if self.allow_heavy && self.rng.chance(1, 3) {
+                    if self.rng.bool() {
+                        self.p_sort_columns()
+                    } else {
+                        self.p_apply_public_permutation()
+                    }
+                } else {
+                    self.p_call()
+                }
+            }
             _ => self.p_iterate(),
         }
+    }
+}
+
+impl<'a> B<'a> {
+    /// Sort a table assembled from existing arrays that share their first dimension; the key is a
+    /// bit column taken from the pool or produced by A2B. Returns one column of the sorted table,
+    /// so that the sort result feeds later operations (a consumer the resharing planner must see).
+    pub fn p_sort_columns(&mut self) -> Option<Node> {
+        let key_src = self.pick_where(|t| matches!(t, Type::Array(s, st) if s.len() <= 2 && s[0] <= 6 && (*st == BIT && s.len() == 2 || *st != BIT && s.len() == 1)))?;
+        let kt = self.ty(&key_src);
+        let n = shape_of(&kt)[0];
+        let key = if kt.get_scalar_type() == BIT {
+            key_src
+        } else {
+            // integer column -> its bits as the key (unsigned 8/16-bit types keep the table small)
+            if st_bits(kt.get_scalar_type()) > 16 {
+                return None;
+            }
+            let r = self.g.a2b(key_src);
+            self.accept(r, "A2B")?
+        };
+        let mut cols = vec![("key".to_string(), key)];
+        for i in 0..self.rng.range(1, 2) {
+            if let Some(c) = self.pick_where(|t| matches!(t, Type::Array(s, _) if s[0] == n && s.len() <= 2)) {
+                cols.push((format!("c{}", i), c));
+            }
+        }
+        let r = self.g.create_named_tuple(cols.clone());
+        let nt = self.accept(r, "CreateNamedTuple")?;
+        let r = self.g.sort(nt, "key".to_string());
+        let sorted = self.accept(r, "Sort")?;
+        let name = cols[self.rng.usize(cols.len())].0.clone();
+        let r = self.g.named_tuple_get(sorted, name);
+        self.accept(r, "NamedTupleGet")
+    }
+
+    /// ApplyPermutation / ApplyInversePermutation with a PUBLIC (constant) permutation
+    pub fn p_apply_public_permutation(&mut self) -> Option<Node> {
+        let a = self.pick_where(|t| matches!(t, Type::Array(s, _) if s[0] <= 8))?;
+        let n = shape_of(&self.ty(&a))[0];
+        let mut p: Vec<u128> = (0..n as u128).collect();
+        self.rng.shuffle(&mut p);
+        let r = self.g.constant(array_type(vec![n], UINT64), crate::val::value_of_ints(&p, UINT64));
+        let pn = self.accept(r, "Constant")?;
+        let r = if self.rng.bool() { self.g.apply_permutation(a, pn) } else { self.g.apply_inverse_permutation(a, pn) };
+        self.accept(r, "ApplyPermutation")
     }
 }
 
